@@ -284,7 +284,7 @@ func ruleFilterPredicates(w *core.World, r *core.Report) {
 		var badPos token.Pos
 		db := ssa.Value(f.Params[1])
 		trueRet := 0
-		core.EnumPathsN(f.Blocks[0], 0, 10000, 2, func(p *core.Path) {
+		core.EnumPathsN(f.Blocks[0], 0, 10000, core.Unroll, func(p *core.Path) {
 			ret, ok := p.End.(*ssa.Return)
 			if !ok || bad != "" {
 				return
